@@ -9,12 +9,14 @@
   keywords, contents and list-length distributions.
   PiPack: one entry per block, all alike (`PiPack.shape`), so equal block counts give identically shaped indexes
   (`PiPack.shape_indistinguishable`).
+  ANSS16: the whole index shape is `shapeFor cfg ⌈log2 N⌉` (`ANSS16.shape`): number of tables, entries per table and all
+  lengths; the level-table bound that makes the padding sufficient (at most 2^(t+1-j) lists at level j) is part of it.
   The other schemes' shape claims are decided by the correspondence (padding cells included) and the direct oracle on
-  pairs of databases with equal size parameter; the level-table bound that makes ANSS16's padding sufficient
-  (fewer than 2^(t+1-i) lists at level i) is checked there, not yet proved.
+  pairs of databases with equal size parameter.
 -/
 import SSEPyVerif.Proofs.Schemes.ChainShape
 import SSEPyVerif.Proofs.Schemes.ChainCfg
+import SSEPyVerif.Proofs.Schemes.ANSS16Shape
 namespace SSEPy.C05
 open SSEPy.Sch SSEPy.Sch.Chain
 
@@ -138,5 +140,76 @@ theorem PiPack.shape_indistinguishable (raw : RawCfg) (cfg : ChainCfg) (hcfg : P
   have b := PiPack.shape raw cfg hcfg lv hl K' db' u u1 D' h' hn' B sz hB hsz hids'
   rw [hN] at a
   exact a.trans b.symm
+
+/-- the shape of a table: the list of (label length, value length) of its entries in stored order -/
+def shapeOf (T : Table) : List (Nat × Nat) := T.map fun p => (p.1.length, p.2.length)
+
+/-- what an ANSS16 index looks like for `t = ⌈log2 N⌉`: `t+1` level tables, level `j` with `2^(t+1-j)` entries of
+    (`l`, `2^j · c`) bytes, and `HT(S)` with `2^t` entries of (`l'`, `c'`) bytes — `c`, `c'` the ciphertext lengths of one
+    identifier and of one length field -/
+def ANSS16.shapeFor (cfg : ANSSCfg) (t : Nat) : List (Nat × Nat) × List (List (Nat × Nat)) :=
+  (List.replicate (2 ^ t) (cfg.lPrime.toNat, 16 + 16 * (ceilDiv (t + 1) 8 / 16 + 1)),
+   (List.range (t + 1)).map fun j => List.replicate (2 ^ (t + 1 - j)) (cfg.l.toNat, 2 ^ j * ANSS16.clen cfg))
+
+theorem shape_replicate (L T : List (Bytes × Bytes)) (hp : T.Perm L) (n a b : Nat) (hl : L.length = n)
+    (he : ANSS16.EntLens L a b) : shapeOf T = List.replicate n (a, b) := by
+  unfold shapeOf
+  apply List.eq_replicate_iff.mpr
+  refine ⟨by rw [List.length_map, hp.length_eq, hl], ?_⟩
+  intro x hx
+  simp only [List.mem_map] at hx
+  obtain ⟨e, hem, rfl⟩ := hx
+  have := he e (hp.mem_iff.mp hem)
+  rw [this.1, this.2]
+
+/-- ANSS16 (schemes/ANSS16/Scheme3): THE INDEX SHAPE IS A FUNCTION OF `⌈log2 N⌉` ONLY.  For every key, database and tape:
+    once setup has returned, the index is `shapeFor cfg ⌈log2 N⌉` — the number of tables, the number of entries of every
+    table and the lengths of every label and value are determined by the configuration and `⌈log2 N⌉`; keywords, contents
+    and the distribution of list lengths do not show.  In particular no level ever holds more lists than the `2^(t+1-j)`
+    it is padded to (the bound commit f3c43f7 relies on): a list kept at level `j` has more than `2^j / 2` identifiers and
+    there are `2^t` identifiers in all.  Hypotheses: AES blocks have 16 bytes; identifiers have the configured size; no
+    dummy keyword drawn by the padding loop repeats a keyword; the labels of each table are distinct (both evaluated by
+    the driver on every recorded run). -/
+theorem ANSS16.shape (cfg : ANSSCfg) (lv : Leaves) (hl : LeafLaws lv) (K : Bytes) (db : DB) (t t' : Tape) (edb : ANSSEDB)
+    (hs : ANSS16.setup cfg lv K db t = .ok (edb, t'))
+    (hids : ∀ p ∈ db, ∀ x ∈ p.2, x.length = cfg.idSize.toNat) (hfresh : (db.map (·.1) ++ draws32 t).Nodup)
+    (hnd : ∀ SL TL t1, ANSS16.setupLists cfg lv K db t = .ok (SL, TL, t1) →
+      (SL.map (·.1)).Nodup ∧ ∀ L ∈ TL, (L.map (·.1)).Nodup) :
+    (shapeOf edb.HTS, edb.HTL.map shapeOf) = ANSS16.shapeFor cfg (clog2 db.total) := by
+  simp only [ANSS16.setup, bind, Except.bind] at hs
+  split at hs
+  · cases hs
+  · rename_i r hr
+    obtain ⟨SL, TL, t1⟩ := r
+    simp only [pure, Except.pure] at hs
+    cases hs
+    obtain ⟨n1, n2⟩ := hnd SL TL _ hr
+    obtain ⟨s1, s2, s3, s4⟩ := ANSS16.setupLists_shape cfg lv hl.enc_len K db t SL TL _ hr hids hfresh
+    unfold ANSS16.shapeFor
+    refine Prod.ext ?_ ?_
+    · exact shape_replicate SL _ (buildTable_perm SL n1) _ _ _ s3 s4
+    · simp only
+      apply List.ext_getElem
+      · simp [s1]
+      · intro j h1 h2
+        simp only [List.length_map] at h1
+        have hj : TL[j]? = some TL[j] := List.getElem?_eq_getElem h1
+        obtain ⟨a, b⟩ := s2 j TL[j] hj
+        simp only [List.getElem_map, List.getElem_range]
+        exact shape_replicate TL[j] _ (buildTable_perm _ (n2 _ (List.getElem_mem h1))) _ _ _ a b
+
+/-- two databases with the same `⌈log2 N⌉` give identically shaped ANSS16 indexes -/
+theorem ANSS16.shape_indistinguishable (cfg : ANSSCfg) (lv : Leaves) (hl : LeafLaws lv) (K K' : Bytes) (db db' : DB)
+    (t t1 u u1 : Tape) (edb edb' : ANSSEDB)
+    (hs : ANSS16.setup cfg lv K db t = .ok (edb, t1)) (hs' : ANSS16.setup cfg lv K' db' u = .ok (edb', u1))
+    (hids : ∀ p ∈ db, ∀ x ∈ p.2, x.length = cfg.idSize.toNat) (hids' : ∀ p ∈ db', ∀ x ∈ p.2, x.length = cfg.idSize.toNat)
+    (hfresh : (db.map (·.1) ++ draws32 t).Nodup) (hfresh' : (db'.map (·.1) ++ draws32 u).Nodup)
+    (hnd : ∀ SL TL t1, ANSS16.setupLists cfg lv K db t = .ok (SL, TL, t1) →
+      (SL.map (·.1)).Nodup ∧ ∀ L ∈ TL, (L.map (·.1)).Nodup)
+    (hnd' : ∀ SL TL t1, ANSS16.setupLists cfg lv K' db' u = .ok (SL, TL, t1) →
+      (SL.map (·.1)).Nodup ∧ ∀ L ∈ TL, (L.map (·.1)).Nodup)
+    (hN : clog2 db.total = clog2 db'.total) :
+    (shapeOf edb.HTS, edb.HTL.map shapeOf) = (shapeOf edb'.HTS, edb'.HTL.map shapeOf) := by
+  rw [ANSS16.shape cfg lv hl K db t t1 edb hs hids hfresh hnd, ANSS16.shape cfg lv hl K' db' u u1 edb' hs' hids' hfresh' hnd', hN]
 
 end SSEPy.C05
